@@ -44,6 +44,25 @@ def setup_worker(tier=None):
       except Exception as e:
         rec['raised'] = repr(e)[:200]
         raise
+      inj = _cap.get('inject')
+      if inj is not None:
+        # failpoint: what a solver that gives up hands back
+        P = np.array(r[1], dtype=float, copy=True)
+        w_, V_ = np.linalg.eigh((P + P.T) / 2)
+        if inj == 'nan':
+          P[0, 0] = np.nan
+        elif inj == 'inf':
+          P[-1, -1] = np.inf
+        elif inj == 'raise':
+          rec['raised'] = 'FloatingPointError(injected)'
+          raise FloatingPointError('injected: non SPD result')
+        else:
+          k_neg = {'indefinite-1': 1, 'indefinite-2': 2}[inj]
+          w_[:min(k_neg, len(w_))] = -np.abs(w_[-1]) * 0.3
+          P = (V_ * w_).dot(V_.T)
+          P = (P + P.T) / 2
+        r = (r[0], P) + tuple(r[2:])
+        rec['injected'] = inj
       rec['precision'] = np.array(r[1], copy=True)
       return r
     return graphical_lasso
@@ -75,6 +94,25 @@ def cases(tier, seed):
                        'classes': int(r.randint(2, 4)), 'variant': 'plain',
                        'nmax': 48},
                 'n_tuples': int(r.choice([16, 24, 40, 1, 1, 2, 3])),
+                'seed': int(r.randint(1000))})
+  # failure clause by fault injection: a positive definite documented input,
+  # and a solver that hands back something that is not a finite SPD matrix
+  kinds = ['nan', 'inf', 'indefinite-1', 'indefinite-2', 'raise']
+  for i in range(10 if q else 200):
+    r = rng_for('c13-inject', seed, i)
+    out.append({'est': 'SDML_Supervised' if i % 4 == 3 else 'SDML',
+                'params': dict({'prior': ['identity', 'covariance', 'random',
+                                          '@spd'][i % 4],
+                                'sparsity_param': [1e-2, 0.1][i % 2]},
+                               **({'n_constraints': 25} if i % 4 == 3
+                                  else {})),
+                'fail': False, 'inject': kinds[i % len(kinds)],
+                'frac': float(r.uniform(0.2, 0.8)),
+                'ds': {'seed': int(r.randint(2**31 - 1)),
+                       'd': int(r.randint(2, 6)),
+                       'classes': int(r.randint(2, 4)), 'variant': 'plain',
+                       'nmax': 48},
+                'n_tuples': int(r.choice([16, 24, 40])),
                 'seed': int(r.randint(1000))})
   return out
 
@@ -201,8 +239,9 @@ def run_case(spec, j):
   est = f.est.set_params(balance_param=b)
   det = {'est': name, 'params': spec['params'], 'balance_param': b,
          'bmax': bmax, 'd': d, 'fail_clause': spec['fail']}
-  api.set_judge(j, well_formed=not spec['fail'])
+  api.set_judge(j, well_formed=not spec['fail'] and not spec.get('inject'))
   del _cap['solver'][:]
+  _cap['inject'] = spec.get('inject')
   raised = None
   with Quiet() as q:
     try:
@@ -210,7 +249,23 @@ def run_case(spec, j):
     except Exception as e:
       raised = e
   api.set_well_formed(False)
+  _cap['inject'] = None
   not_converged = any('did not converge' in str(w.message) for w in q.w)
+  if spec.get('inject'):
+    calls = list(_cap['solver'])
+    if len(calls) != 1 or (calls[0].get('injected') != spec['inject'] and
+                           spec['inject'] != 'raise'):
+      j.skip('C13.failure-clause', 'failpoint-not-reached')
+      return
+    # the solver "could not produce a finite SPD matrix": fit must raise
+    # RuntimeError, neither return a model nor fail in some other way
+    j.check('C13.failure-clause', type(raised) is RuntimeError,
+            dict(det, injected=spec['inject'],
+                 outcome=repr(raised)[:200] if raised is not None
+                 else 'returned a model'),
+            mechanism='solver-failure-not-reported-as-RuntimeError')
+    j.distinct(name, 'inject', spec['inject'], spec['ds']['seed'])
+    return
   if spec['fail']:
     if raised is not None:
       j.check('C13.failure-clause', type(raised) is RuntimeError,
